@@ -161,6 +161,10 @@ pub trait Value: Clone + Send + Sync + 'static {
     fn stored_len(&self) -> Option<usize> {
         None
     }
+    /// A value of this type with exactly `n` top-level elements (vectors only).
+    fn with_len(_g: &mut Gen, _n: usize) -> Option<Self> {
+        None
+    }
     /// Flattened integer leaves (symbols of Huffman-coded data).
     fn leaves(&self, _out: &mut Vec<u32>) {}
     /// Byte strings at the leaves (inputs of dictionary-coded regions).
@@ -606,6 +610,12 @@ impl<T: Value> Value for Vec<T> {
         let v = (0..n).map(|_| T::gen(g)).collect();
         g.depth -= 1;
         v
+    }
+    fn with_len(g: &mut Gen, n: usize) -> Option<Self> {
+        g.depth += 1;
+        let v = (0..n).map(|_| T::gen(g)).collect();
+        g.depth -= 1;
+        Some(v)
     }
     fn beq(&self, o: &Self) -> bool {
         if std::mem::size_of::<T>() == 0 {
